@@ -267,6 +267,82 @@ def insertBy {α} (key : α → Nat) (x : α) : List α → List α
   | y :: r => if key x ≤ key y then x :: y :: r else y :: insertBy key x r
 def sortBy {α} (key : α → Nat) (l : List α) : List α := l.foldr (insertBy key) []
 
+/-! ### canonical ids: ids from the global counters are renamed by rank (as the harness does for the
+real `Fsm`), so that gaps (a doc id overwritten by a second declaration, …) do not matter -/
+def dedupSorted : List Nat → List Nat
+  | a :: b :: r => if a = b then dedupSorted (b :: r) else a :: dedupSorted (b :: r)
+  | l => l
+
+def rankIn (sorted : List Nat) (x : Nat) : Nat :=
+  if x = 0 then 0 else
+  match sorted.findIdx? (· = x) with
+  | some i => i + 1
+  | none => 900000 + x
+
+def dataSrc : Data → List Nat
+  | .source _ id => if id = 0 then [] else [id]
+  | _ => []
+
+def execSrcs : Exec → List Nat
+  | .ifE c _ _ => dataSrc c
+  | .expression d => dataSrc d
+  | .log _ d => dataSrc d
+  | .foreach a _ _ _ => dataSrc a
+  | .send p => dataSrc p.event ++ dataSrc p.eventExpr ++ dataSrc p.target ++ dataSrc p.targetExpr ++
+      dataSrc p.typeValue ++ dataSrc p.typeExpr ++ dataSrc p.delayExpr
+  | .cancel _ d => dataSrc d
+  | .assign l e => dataSrc l ++ dataSrc e
+  | _ => []
+
+def canonFsm (f : Fsm) : Fsm :=
+  let ids := dedupSorted (sortBy id (f.transitions.map (·.id) ++ f.regions.map (·.1)))
+  let docs := dedupSorted (sortBy id ((f.states.map (·.docId) ++ f.transitions.map (·.docId) ++
+    f.states.flatMap (fun s => s.invoke.map (·.docId))).filter (· ≠ 0)))
+  let srcs := dedupSorted (sortBy id (
+    f.states.flatMap (fun s => s.data.flatMap (fun kv => dataSrc kv.2) ++
+      s.invoke.flatMap (fun i => dataSrc i.typeName ++ dataSrc i.typeExpr ++ dataSrc i.src ++ dataSrc i.srcExpr)) ++
+    f.transitions.flatMap (fun t => dataSrc t.cond) ++ f.regions.flatMap (fun r => r.2.flatMap execSrcs)))
+  let ri := rankIn ids
+  let rd := rankIn docs
+  let rs : Data → Data := fun d => match d with
+    | .source s id => .source s (rankIn srcs id)
+    | d => d
+  let rExec : Exec → Exec := fun e => match e with
+    | .ifE c ct el => .ifE (rs c) (ri ct) (ri el)
+    | .expression d => .expression (rs d)
+    | .script l => .script (l.map ri)
+    | .log l d => .log l (rs d)
+    | .foreach a i x ct => .foreach (rs a) i x (ri ct)
+    | .send p => .send { p with
+        event := rs p.event
+        eventExpr := rs p.eventExpr
+        target := rs p.target
+        targetExpr := rs p.targetExpr
+        typeValue := rs p.typeValue
+        typeExpr := rs p.typeExpr
+        delayExpr := rs p.delayExpr }
+    | .raise e => .raise e
+    | .cancel i d => .cancel i (rs d)
+    | .assign l e => .assign (rs l) (rs e)
+  { f with
+    script := ri f.script
+    states := f.states.map fun s => { s with
+      docId := rd s.docId
+      initial := ri s.initial
+      onentry := s.onentry.map ri
+      onexit := s.onexit.map ri
+      transitions := s.transitions.map ri
+      data := s.data.map fun kv => (kv.1, rs kv.2)
+      invoke := s.invoke.map fun i => { i with
+        docId := rd i.docId
+        typeName := rs i.typeName
+        typeExpr := rs i.typeExpr
+        src := rs i.src
+        srcExpr := rs i.srcExpr
+        finalize := ri i.finalize } }
+    transitions := f.transitions.map fun t => { t with id := ri t.id, docId := rd t.docId, cond := rs t.cond, content := ri t.content }
+    regions := f.regions.map fun r => (ri r.1, r.2.map rExec) }
+
 def pFsm (f : Fsm) : Sx :=
   .list [.atom "fsm", .str f.name, .str f.datamodel, pBool f.bindingLate, .str f.version, pNat f.pseudoRoot,
     pNat f.script, .list (f.states.map pState), .list ((sortBy (·.id) f.transitions).map pTrans),
@@ -480,7 +556,7 @@ def handle : List String → String
     match (parseSx s).bind (gList gSax) with
     | some es =>
       match read es with
-      | .ok f => "ok " ++ (pFsm f).print
+      | .ok f => "ok " ++ (pFsm (canonFsm f)).print
       | .error e => "panic " ++ siteName e
     | none => "bad-op"
   | ["sax", d] =>
